@@ -26,6 +26,9 @@ def estep(ctx):
     I = new_interp(KC)
     F = KM.facts()
     cl = K.check_function(I, "kmeans.e_step", lambda: ([KM.mk_data(), KM.mk_means()], {}), KM.spec_e_step, F, "C06.e")
+    # centroids given as an INTEGER array (explicit init_method): statistics must still be exact
+    I = new_interp(KC)
+    cl += K.check_function(I, "kmeans.e_step", lambda: ([KM.mk_data(), input_arr("cen", (KM.Kk, KM.Dd), dtype="int")], {}), KM.spec_e_step, F, "C06.e.intcentroids")
     out = collapse([c for c in cl if "result[0]" in c.name or "result[1]" in c.name], "C06.assign",
                    "per-block counts and sums are those of the samples whose nearest centroid (argmin of the squared distances) is k")
     out += collapse([c for c in cl if "result[2]" in c.name], "C06.estep.criterion", "third component == mean over the block of min_k distance")
@@ -107,3 +110,4 @@ REPLAY = [("C06.loop", "kmeans_repro.py", "fit_loop", {}), ("C06", "kmeans_repro
 TRUSTED = ["np.argmin / np.min contracts; np.bincount contract; scipy cdist contract", "dask_ml k_init returns the initial centroids (opaque)",
            "Dask contract (DESIGN §3)"]
 ASSUMPTIONS = ["every cluster keeps at least one sample (as in the property statement)", "previous criterion non-zero in the convergence test"]
+XCHECK = ['kmeans']
